@@ -104,7 +104,14 @@ def replay(drv, wd, tag, lines):
         part += 1
         if p.returncode == 0:
             break
-        if p.returncode == 3 and evs and evs[-1]["e"] == "terminate":
+        if p.returncode < 0:
+            # the executor died on a signal while running an action against the real code: that
+            # death is the observation of the action (no Contract allows it); resume afterwards
+            ln = (evs[-1].get("lineno", first - 1) if evs else first - 1) + 1
+            evs.append({"e": "crash", "lineno": ln, "signal": -p.returncode,
+                        "action": lines[ln - 1] if ln - 1 < len(lines) else ""})
+            events.append(evs[-1])
+        if (p.returncode == 3 and evs and evs[-1]["e"] in ("terminate", "crash")) or p.returncode < 0:
             ln = evs[-1]["lineno"]
             nxt = None
             for i in range(ln, len(lines)):       # lines are 1-based: index ln is line ln+1
